@@ -53,6 +53,7 @@ func (m *Mutex) TryLock() bool {
 type RWMutex struct {
 	m       sync.RWMutex
 	writer  bool
+	pending bool // a writer has announced itself and waits for the active readers to leave
 	readers int
 	owner   int
 }
@@ -60,9 +61,21 @@ type RWMutex struct {
 // Owner returns the scheduler thread holding the write lock, or -1.
 func (m *RWMutex) Owner() int { return m.owner - 1 }
 
+// Lock follows sync.RWMutex: a writer first announces itself -- from that moment on NEW readers
+// block, also a thread that already holds a read lock and asks for a second one -- and then waits
+// for the active readers to leave. The announcement is a step of its own only when there are
+// active readers (otherwise announcing and acquiring are one atomic step, as in the real
+// primitive), so code that never read-locks recursively explores the same schedules as with a
+// plain "enabled iff free" model, and the writer-preference deadlock (RLock; <writer arrives>;
+// RLock) exists in the explored space.
 func (m *RWMutex) Lock() {
 	if x := sched.Cur(); x != nil {
-		x.Point("Lock", m, func() bool { return !m.writer && m.readers == 0 })
+		x.Point("Lock", m, func() bool { return !m.writer && !m.pending })
+		if m.readers > 0 {
+			m.pending = true
+			x.Point("LockWaitReaders", m, func() bool { return m.readers == 0 })
+			m.pending = false
+		}
 		m.writer = true
 		m.owner = x.RunningID() + 1
 	}
@@ -79,7 +92,7 @@ func (m *RWMutex) Unlock() {
 
 func (m *RWMutex) RLock() {
 	if x := sched.Cur(); x != nil {
-		x.Point("RLock", m, func() bool { return !m.writer })
+		x.Point("RLock", m, func() bool { return !m.writer && !m.pending })
 		m.readers++
 	}
 	m.m.RLock()
@@ -92,8 +105,33 @@ func (m *RWMutex) RUnlock() {
 	m.m.RUnlock()
 }
 
-func (m *RWMutex) TryLock() bool   { return m.m.TryLock() }
-func (m *RWMutex) TryRLock() bool  { return m.m.TryRLock() }
+func (m *RWMutex) TryLock() bool {
+	if x := sched.Cur(); x != nil {
+		x.Point("TryLock", m, func() bool { return true })
+		if m.writer || m.pending || m.readers > 0 {
+			return false
+		}
+		m.writer = true
+		m.owner = x.RunningID() + 1
+		m.m.Lock()
+		return true
+	}
+	return m.m.TryLock()
+}
+
+func (m *RWMutex) TryRLock() bool {
+	if x := sched.Cur(); x != nil {
+		x.Point("TryRLock", m, func() bool { return true })
+		if m.writer || m.pending {
+			return false
+		}
+		m.readers++
+		m.m.RLock()
+		return true
+	}
+	return m.m.TryRLock()
+}
+
 func (m *RWMutex) RLocker() Locker { return rlocker{m} }
 
 type rlocker struct{ m *RWMutex }
